@@ -20,6 +20,8 @@ def is_modelled(c):
         return True
     if (c.kind, c.fields.get("sub", [""])[0]) in MODELLED_SUBS:
         return True
+    if c.kind == "pc" and "c12" in c.fields:
+        return True
     if c.kind in ("pc", "c08"):
         return c.fields.get("scheme", [""])[0] in MODELLED_PC_SCHEMES and "beta" in c.fields
     return False
